@@ -908,3 +908,186 @@ pub fn tcpuri_strategy() -> impl proptest::strategy::Strategy<Value = TcpUriCase
     use proptest::prelude::*;
     (strategy(), prop_oneof![2 => Just(None), 1 => (0u8..DEGENERATE_URIS.len() as u8).prop_map(Some)], prop_oneof![3 => Just(0u8), 3 => Just(1u8), 1 => Just(2u8)], any::<bool>(), 0u8..16).prop_map(|(req, special, via, answer, cfgsel)| TcpUriCase { req, special, via, answer, cfgsel })
 }
+
+// ------------------------------------------------------------------------------------------------
+// The pooled service with the crate's own `RequestExecutor` as its inner service and a single-use
+// connection that - like the crate's mock connection - always reports itself ready and open: what keeps
+// a second request off such a connection is that the first request *holds its handle* until its
+// response has arrived. Responses are gated by the case (C02).
+
+#[derive(Clone, Debug, Serialize, Deserialize, PartialEq)]
+pub struct ExecCase {
+    /// requests issued one after the other while no response has arrived yet
+    pub burst: u8,
+    /// responses released before the second batch of requests
+    pub released: u8,
+    /// requests issued after that
+    pub later: u8,
+}
+
+#[derive(Default)]
+pub struct ExecShared {
+    dialed: std::sync::atomic::AtomicUsize,
+    /// (request, connection, requests in flight on that connection when it was sent - itself included)
+    sent: Mutex<Vec<(usize, usize, usize)>>,
+}
+
+pub struct GateConn {
+    id: usize,
+    in_flight: Arc<std::sync::atomic::AtomicUsize>,
+    shared: Arc<ExecShared>,
+    gate: Arc<tokio::sync::Semaphore>,
+}
+impl Connection<B> for GateConn {
+    type ResBody = B;
+    type Error = StubErr;
+    type Future = Pin<Box<dyn Future<Output = Result<http::Response<B>, StubErr>> + Send>>;
+    fn send_request(&mut self, request: http::Request<B>) -> Self::Future {
+        use std::sync::atomic::Ordering;
+        let now = self.in_flight.fetch_add(1, Ordering::SeqCst) + 1;
+        let rid: usize = request.headers().get("x-rid").and_then(|v| v.to_str().ok()).and_then(|v| v.parse().ok()).unwrap_or(usize::MAX);
+        self.shared.sent.lock().unwrap().push((rid, self.id, now));
+        let (in_flight, gate) = (self.in_flight.clone(), self.gate.clone());
+        Box::pin(async move {
+            if let Ok(p) = gate.acquire().await {
+                p.forget();
+            }
+            in_flight.fetch_sub(1, Ordering::SeqCst);
+            Ok(http::Response::new(Full::new(Bytes::new())))
+        })
+    }
+    fn poll_ready(&mut self, _cx: &mut Context<'_>) -> Poll<Result<(), StubErr>> {
+        Poll::Ready(Ok(()))
+    }
+    fn version(&self) -> http::Version {
+        http::Version::HTTP_11
+    }
+}
+impl PoolableConnection<B> for GateConn {
+    fn is_open(&self) -> bool {
+        true
+    }
+    fn can_share(&self) -> bool {
+        false
+    }
+    fn reuse(&mut self) -> Option<Self> {
+        None
+    }
+}
+
+#[derive(Clone)]
+pub struct GateProtocol {
+    shared: Arc<ExecShared>,
+    gate: Arc<tokio::sync::Semaphore>,
+}
+impl Service<ProtocolRequest<StubStream, B>> for GateProtocol {
+    type Response = GateConn;
+    type Error = ConnectionError;
+    type Future = std::future::Ready<Result<GateConn, ConnectionError>>;
+    fn poll_ready(&mut self, _: &mut Context<'_>) -> Poll<Result<(), ConnectionError>> {
+        Poll::Ready(Ok(()))
+    }
+    fn call(&mut self, _req: ProtocolRequest<StubStream, B>) -> Self::Future {
+        let id = self.shared.dialed.fetch_add(1, std::sync::atomic::Ordering::SeqCst);
+        std::future::ready(Ok(GateConn { id, in_flight: Default::default(), shared: self.shared.clone(), gate: self.gate.clone() }))
+    }
+}
+
+pub struct ExecHeldEngine;
+
+impl Engine for ExecHeldEngine {
+    type Case = ExecCase;
+    fn name(&self) -> &'static str {
+        "execheld"
+    }
+    fn run_case(&self, c: &ExecCase) -> CaseReport {
+        let mut rep = CaseReport::default();
+        let _ = crate::panichook::take_all();
+        let rt = tokio::runtime::Builder::new_current_thread().enable_time().start_paused(true).build().unwrap();
+        let shared: Arc<ExecShared> = Default::default();
+        let shared2 = shared.clone();
+        let c2 = c.clone();
+        let res = std::panic::catch_unwind(std::panic::AssertUnwindSafe(|| {
+            rt.block_on(async move {
+                let gate = Arc::new(tokio::sync::Semaphore::new(0));
+                let svc: ConnectionPoolService<StubTransport, GateProtocol, RequestExecutor<_, B>, B> =
+                    ConnectionPoolService::new(StubTransport { alpn_h2: false, fail: false, not_ready: 0 }, GateProtocol { shared: shared2, gate: gate.clone() }, RequestExecutor::new(), PoolConfig::default());
+                let settle = || async {
+                    for _ in 0..40 {
+                        tokio::task::yield_now().await;
+                    }
+                };
+                let mut tasks = vec![];
+                let mut rid = 0usize;
+                let burst = (c2.burst as usize).clamp(1, 4);
+                let later = (c2.later as usize).min(3);
+                for _ in 0..burst {
+                    let req = http::Request::builder().uri("http://exec.test/").header("x-rid", rid).body(Full::new(Bytes::new())).unwrap();
+                    rid += 1;
+                    tasks.push(tokio::spawn(svc.clone().oneshot(req)));
+                    settle().await;
+                }
+                gate.add_permits((c2.released as usize).min(burst));
+                settle().await;
+                for _ in 0..later {
+                    let req = http::Request::builder().uri("http://exec.test/").header("x-rid", rid).body(Full::new(Bytes::new())).unwrap();
+                    rid += 1;
+                    tasks.push(tokio::spawn(svc.clone().oneshot(req)));
+                    settle().await;
+                }
+                gate.add_permits(64);
+                let mut failed = vec![];
+                for (i, t) in tasks.into_iter().enumerate() {
+                    match tokio::time::timeout(std::time::Duration::from_secs(5), t).await {
+                        Ok(Ok(Ok(_))) => {}
+                        Ok(Ok(Err(e))) => failed.push(format!("request {i} failed: {e}")),
+                        Ok(Err(e)) => failed.push(format!("request {i}: task ended: {e}")),
+                        Err(_) => failed.push(format!("request {i}: no response within 5 virtual seconds after every response had been released")),
+                    }
+                }
+                failed
+            })
+        }));
+        drop(rt);
+        for (loc, msg) in crate::panichook::take_all() {
+            if crate::panichook::in_library(&loc) {
+                rep.violate("C02/executor/panic-in-library", format!("{c:?}: panic at {loc}: {msg}"));
+            }
+        }
+        match res {
+            Err(_) => {
+                if rep.violations.is_empty() {
+                    rep.internal_error = Some(format!("harness panic at {}: {}", crate::panichook::last_location(), crate::panichook::last_message()));
+                }
+            }
+            Ok(failed) => {
+                let sent = shared.sent.lock().unwrap().clone();
+                if let Some((rid, conn, n)) = sent.iter().find(|(_, _, n)| *n > 1) {
+                    rep.violate(
+                        "C02/executor/second-request-on-a-connection-still-serving-the-first",
+                        format!("{c:?}: request {rid} was sent on single-use connection {conn} while {} other request(s) were still waiting for their responses on it; (request, connection, in flight) in sending order: {sent:?}", n - 1),
+                    );
+                }
+                if !failed.is_empty() {
+                    rep.violate("C02/executor/request-did-not-complete", format!("{c:?}: {failed:?}"));
+                }
+                if sent.len() >= 2 {
+                    rep.class("overlapping-requests-same-origin");
+                }
+                let conns: std::collections::BTreeSet<usize> = sent.iter().map(|s| s.1).collect();
+                if conns.len() < sent.len() {
+                    rep.class("connection-carried-2+-requests");
+                }
+            }
+        }
+        rep.class("request-executor-holds-the-handle");
+        rep.nontrivial = c.burst >= 2 || c.later >= 1;
+        rep.total_ops = (c.burst + c.later) as u64;
+        rep
+    }
+}
+
+pub fn exec_strategy() -> impl proptest::strategy::Strategy<Value = ExecCase> {
+    use proptest::prelude::*;
+    (1u8..5, 0u8..5, 0u8..4).prop_map(|(burst, released, later)| ExecCase { burst, released, later })
+}
